@@ -45,7 +45,7 @@ for p in props:
         out += body + "\n\n"
     else:
         out += "(no design note written yet)\n\n"
-for extra in ("ENC2", "fileinfra"):
+for extra in ("ENC2", "fileinfra", "bitloops", "c2coq"):
     f = V / "design.d" / f"{extra}.md"
     if f.exists():
         body = re.sub(r"(?m)^## ", "#### ", re.sub(r"(?m)^# ", "### ", f.read_text().strip()))
@@ -59,6 +59,8 @@ for k in sorted(kf, key=lambda k: (k.get("property", ""), k.get("commit", ""))):
     what = k.get("what", "").replace("|", "\\|").replace("\n", " ")
     out += "| %s | %s | %s | %s |\n" % (k.get("property"), k.get("status"), k.get("commit", ""), what[:400])
 out += "\n--------------------------------------------------------------------------------\n\n# Part IV — seeded breaking changes\n\n"
+if (S / "a12_seeding.md").exists():
+    out += rd("a12_seeding.md")
 out += ("Each directory under `seeded/` holds a change to carquet that compiles and passes the pinned test suite but breaks a "
         "property (patch.diff, a demonstration where one was produced, meta.json).  *independent* = produced by a sub-agent that "
         "was given only the property text and a scratch worktree; the others are the self-test mutations of the person who built "
